@@ -16,11 +16,30 @@
 # IMPORTS
 # =============================================================================k
 
+import functools
+
+import pandas as pd
+
 from ..utils import AccessorABC
 
 # =============================================================================
 # STATS ACCESSOR
 # =============================================================================
+
+
+def _own_axes(result):
+    """Give a pandas object deep copies of its axes.
+
+    pandas shares the storage of the labels between a frame and whatever is
+    computed from it, so the result of a statistic must not keep the index
+    of the underlying dataframe.
+
+    """
+    if isinstance(result, (pd.Series, pd.DataFrame)):
+        result.index = result.index.copy(deep=True)
+    if isinstance(result, pd.DataFrame):
+        result.columns = result.columns.copy(deep=True)
+    return result
 
 
 class DecisionMatrixStatsAccessor(AccessorABC):
@@ -80,7 +99,13 @@ class DecisionMatrixStatsAccessor(AccessorABC):
         """x.__getattr__(a) <==> x.a <==> getattr(x, "a")."""
         if a not in self._DF_WHITELIST:
             raise AttributeError(a)
-        return getattr(self._dm._data_df, a)
+        method = getattr(self._dm._data_df, a)
+
+        @functools.wraps(method)
+        def stat(*args, **kwargs):
+            return _own_axes(method(*args, **kwargs))
+
+        return stat
 
     def __dir__(self):
         """x.__dir__() <==> dir(x)."""
@@ -100,4 +125,5 @@ class DecisionMatrixStatsAccessor(AccessorABC):
 
         """
         df = self._dm._data_df
-        return (df - df.mean(axis=axis)).abs().mean(axis=axis, skipna=skipna)
+        mad = (df - df.mean(axis=axis)).abs().mean(axis=axis, skipna=skipna)
+        return _own_axes(mad)
